@@ -2396,6 +2396,9 @@ def check_const_alias(ck, facts):
                     if x.get("k") == "Ref" and x.get("dk") == "enum" and "CloneMode" in (x.get("qn") or ""):
                         mode = x["qn"].rsplit("::", 1)[-1]
             if mode is None:
+                mv = rs.value(marg) if marg is not None else None
+                if mv is not None and mv.get("k") == "Ref" and mv.get("dk") == "param":
+                    continue          # the clone mode is a parameter of this function: which mode is admissible is the caller's contract, not decidable (nor violated) here
                 ck.incomplete("E2.const-input-not-aliased", "%s: clone mode %s is not a constant; whether the clone owns its values is not decidable here" % (key, render(marg)))
                 continue
             ok = mode in MUT_OK_MODES
@@ -2461,8 +2464,18 @@ def check_global_copy(ck, facts):
                         return accessor[st[1][1]]
                 return None
 
-            def from_args(e):
-                return any(x.get("k") == "Ref" and x.get("dk") == "param" and x.get("d") in pds for x in walk(e)) if e is not None else False
+            assigned_ = dfl.assigned_decls(f)
+
+            def from_args(e, depth=0):
+                """the value is computed from the function's arguments (through named temporaries: `Vector tmp = other.clone(mode); *this = std::move(tmp);`)"""
+                if e is None or depth > 4:
+                    return False
+                for x in walk(e):
+                    if x.get("k") == "Ref" and x.get("dk") == "param" and x.get("d") in pds:
+                        return True
+                    if x.get("k") == "Ref" and x.get("dk") == "local" and rs.var(x.get("d")) is not None and from_args(rs.var(x["d"]).get("init"), depth + 1):
+                        return True
+                return False
             written = {}
             for n in dfl.own_nodes(f):
                 k = n.get("k")
@@ -2471,6 +2484,13 @@ def check_global_copy(ck, facts):
                     lhs, rhs = n["lhs"], n["rhs"]
                 elif k == "OpCall" and n.get("op") == "=" and len(n.get("a", [])) == 2:
                     lhs, rhs = n["a"]
+                elif k == "Call" and strip_targs(n.get("callee", "") or "") == "std::swap" and len(n.get("a", [])) == 2:
+                    # swap with a part of a temporary that was built from the arguments: *this's part takes the temporary's value
+                    a0, a1 = n["a"]
+                    if own_field(a0) is not None:
+                        lhs, rhs = a0, a1
+                    elif own_field(a1) is not None:
+                        lhs, rhs = a1, a0
                 elif k == "MCall" and not n.get("cconst") and n.get("a") and callee_name(n) in ("clone", "convert", "copy", "assign"):
                     pr_ = dfl.parents(f).get(id(n))
                     if pr_ is not None and pr_[0].get("k") in ("Block", "If", "For", "While"):
@@ -2484,7 +2504,7 @@ def check_global_copy(ck, facts):
             if not written:
                 continue            # not a member that takes parts over from another object
             missing = [x for x in fields if x not in written]
-            opaque = [c for c in calls_of(f) if c.get("callee") not in dfl.MOVE_FNS and c.get("callee") != "FEAT::assertion" and (
+            opaque = [c for c in calls_of(f) if c.get("callee") not in dfl.MOVE_FNS and c.get("callee") != "FEAT::assertion" and strip_targs(c.get("callee", "") or "") != "std::swap" and (
                 (c.get("k") == "MCall" and (c.get("obj") is None or c["obj"].get("k") == "This") and not c.get("cconst") and callee_name(c) not in accessor) or
                 any(a_.get("k") == "This" or (a_.get("k") == "Un" and a_.get("op") == "*" and a_["e"].get("k") == "This") for a_ in c.get("a", [])) or
                 dfl.lambda_body_of(rs, c) is not None)]
@@ -2532,19 +2552,53 @@ def check_tuple_mirror(ck, facts):
             """name of the sub-mirror member of *this an expression denotes"""
             return field_of(rs, n)
 
-        def terms(e, depth=0):
-            """sum normal form: list of ('own',) | ('size', sub-mirror member, vector part) | ('int', v) | ('?', text)"""
-            e = unwrap_val(rs, e) if e is not None else None
-            if e is None or depth > 8:
+        def terms(e, depth=0, ctx=None, use=None):
+            """sum normal form: list of ('own',) | ('size', sub-mirror member, vector part) | ('int', v) | ('?', text).
+            ctx = (function, resolver, {parameter decl: term list | 'vector'}) while a value-returning member helper is followed through its return expression;
+            use = the call statement at which a running offset (`Index o = a; ...; o += b;`) is read"""
+            f_, rs_, bind = ctx if ctx is not None else (fn, rs, None)
+            e = unwrap_val(rs_, e) if e is not None else None
+            if e is None or depth > 10:
                 return [("?", "-")]
             if e.get("k") == "Bin" and e.get("op") == "+":
-                return terms(e["lhs"], depth + 1) + terms(e["rhs"], depth + 1)
-            if e.get("k") == "Ref" and e.get("dk") == "param" and offp and e.get("d") == offp[0]["d"]:
-                return [("own",)]
+                return terms(e["lhs"], depth + 1, ctx, use) + terms(e["rhs"], depth + 1, ctx, use)
+            if e.get("k") == "Ref" and e.get("dk") == "param":
+                if bind is not None:
+                    b_ = bind.get(e.get("d"))
+                    return list(b_) if isinstance(b_, list) else [("?", render(e))]
+                if offp and e.get("d") == offp[0]["d"]:
+                    return [("own",)]
             if e.get("k") == "Int":
                 return [] if str(e.get("v")) == "0" else [("int", str(e.get("v")))]
-            if e.get("k") == "MCall" and callee_name(e) == "buffer_size" and sub_of(e.get("obj")) is not None and len(e.get("a", [])) == 1 and part_of(e["a"][0]) is not None:
-                return [("size", sub_of(e["obj"]), part_of(e["a"][0]))]
+            if e.get("k") == "MCall" and callee_name(e) == "buffer_size" and field_of(rs_, e.get("obj")) is not None and len(e.get("a", [])) == 1:
+                pa = rs_.path(e["a"][0]).steps
+                vpar = vd if bind is None else next((d_ for d_, b_ in bind.items() if b_ == "vector"), None)
+                if len(pa) == 2 and pa[0] == ("param", vpar) and pa[1][0] == "call" and pa[1][1] in ("first", "rest"):
+                    return [("size", field_of(rs_, e["obj"]), pa[1][1])]
+            if e.get("k") == "Ref" and e.get("dk") == "local" and use is not None and bind is None and e["d"] in dfl.assigned_decls(fn):
+                # a running offset in straight-line code: initial value + every `+=` executed before the use
+                v_ = rs.var(e["d"])
+                mods_ = norm._mods_of(fn).get(e["d"], [])
+                if v_ is not None and v_.get("init") is not None and all(m_.get("k") == "Assign" and m_.get("op") == "+=" and "i" in m_ for m_ in mods_) \
+                        and not dfl.enclosing_loops(fn, dfl.parents(fn), use) and all(not dfl.enclosing_loops(fn, dfl.parents(fn), m_) for m_ in mods_):
+                    out_ = terms(v_["init"], depth + 1, None, use)
+                    for m_ in mods_:
+                        if fn.cfg.stmt_dominates(m_["i"], use["i"]):
+                            out_ += terms(m_["rhs"], depth + 1, None, use)
+                        elif not fn.cfg.stmt_dominates(use["i"], m_["i"]):
+                            return [("?", "conditional update of %s" % e.get("n"))]
+                    return out_
+            if e.get("k") == "MCall" and (e.get("obj") is None or e["obj"].get("k") == "This") and depth < 6:
+                # a value-returning member helper: follow its return expression with the parameters bound
+                g = norm.find_callee(f_.facts, e)
+                ret = norm.return_expr(g) if g is not None and not g.d.get("virtual") and len(g.params) == len(e.get("a", [])) else None
+                if ret is not None:
+                    b2 = {}
+                    for p_, a_ in zip(g.params, e["a"]):
+                        pa = rs_.path(a_).steps
+                        vpar = vd if bind is None else next((d_ for d_, b_ in bind.items() if b_ == "vector"), None)
+                        b2[p_["d"]] = "vector" if pa == (("param", vpar),) else terms(a_, depth + 1, ctx, use)
+                    return terms(ret, depth + 1, (g, Resolver(g), b2), None)
             return [("?", render(e)[:40])]
         if fn.name == "buffer_size":
             rets = [n for n in dfl.own_walk(fn.body) if n.get("k") == "Return" and n.get("e") is not None]
@@ -2568,7 +2622,7 @@ def check_tuple_mirror(ck, facts):
             if pt_ is None or off is None or pt_ in info:
                 bad_shape = "sub-call %s not understood" % render(c)[:70]
                 break
-            info[pt_] = (c, sorted(terms(off)), sub_of(c.get("obj")))
+            info[pt_] = (c, sorted(terms(off, 0, None, c)), sub_of(c.get("obj")))
         if bad_shape or not info or sorted(info) not in (["first"], ["first", "rest"]):
             ck.incomplete(rule, "%s: %s" % (key, bad_shape or "%d sub-mirror calls of the same operation (expected first [+ rest])" % len(subcalls)))
             continue
@@ -2641,6 +2695,34 @@ def check_gate_tuple(ck, facts):
                     and rs.path(a0.get("obj")) == rs.path(a1.get("obj")):
                 return rs.path(a0.get("obj"))
             return None
+        def const_copy_of(v):
+            """through casts and never-reassigned copies of a value (`const int rk = rank;`, the by-value parameter of an inlined helper) — not through the hidden
+            iterator dereference that initialises a range variable"""
+            v = norm._strip(v)
+            for _ in range(4):
+                if v is not None and v.get("k") == "Ref" and v.get("dk") == "local" and v.get("d") not in range_loops and v["d"] not in dfl.assigned_decls(fn) \
+                        and rs.var(v["d"]) is not None and not rs.var(v["d"]).get("ref") and rs.var(v["d"]).get("init") is not None:
+                    v = norm._strip(rs.var(v["d"])["init"])
+            return v
+
+        def find_guard(cn):
+            """(component, subscript text) for  it != R.end()  with  it = std::find(R.begin(), R.end(), rank),  R = gate_k.get_ranks(): the mirror is selected where the
+            ranks of gate_k equal the neighbour rank; the subscript is then  it - R.begin()"""
+            if not (cn.get("k") in ("Bin", "OpCall") and cn.get("op") == "!="):
+                return None
+            l_, r_ = (cn["lhs"], cn["rhs"]) if cn.get("k") == "Bin" else cn["a"][:2]
+            for u, v in ((l_, r_), (r_, l_)):
+                uv, vv = rs.value(u), rs.value(v)
+                if uv is not None and uv.get("k") == "Ref" and uv.get("dk") == "local" and rs.var(uv["d"]) is not None:
+                    uv = norm._strip(rs.var(uv["d"]).get("init"))
+                if uv is not None and uv.get("k") == "Call" and strip_targs(uv.get("callee", "")) == "std::find" and len(uv.get("a", [])) == 3 \
+                        and vv is not None and vv.get("k") == "MCall" and callee_name(vv) in ("end", "cend"):
+                    R_ = iter_range(uv["a"][0], uv["a"][1])
+                    key_ = const_copy_of(uv["a"][2])
+                    if R_ is not None and R_ == rs.path(vv.get("obj")) and gate_accessor(R_, "get_ranks") is not None and len(R_.steps) == 2 \
+                            and key_ is not None and key_.get("k") == "Ref" and key_.get("d") == rank_d:
+                        return gate_accessor(R_, "get_ranks"), "find"
+            return None
         sources, unk_src = set(), []
         sv = rs.var(S.steps[0][1])
         ini = sv.get("init") if sv is not None else None
@@ -2674,6 +2756,11 @@ def check_gate_tuple(ck, facts):
                     sources.add(src)
             elif any(a_ is not recv and pt_ is not None and is_nonconst_ref(pt_) and rs.path(a_) == S for a_, pn_, pt_ in dfl.call_args_with_params(c, fn)):
                 unk_src.append(render(c)[:60])
+            else:
+                # a closure that touches the neighbour set (called here or handed to a callee) may insert ranks out of sight
+                bodies = [b_ for b_ in [dfl.lambda_body_of(rs, c)] if b_ is not None] + [a_["body"] for a_ in c.get("a", []) if a_.get("k") == "Lambda" and a_.get("body") is not None]
+                if any(p_.related(S) for b_ in bodies for p_ in dfl.lambda_touched_paths(rs, fn, b_)):
+                    unk_src.append("closure called by %s" % render(c)[:40])
         src_comps = {gate_accessor(p_, "get_ranks") for p_ in sources if len(p_.steps) == 2}
         # sub-mirror and template-vector components
         mir, frq, unk_c = {}, {}, []
@@ -2690,15 +2777,19 @@ def check_gate_tuple(ck, facts):
                 guard = None
                 for cnd, br in enclosing_conds(par, c):
                     cn = norm._strip(cnd)
+                    fg_ = find_guard(cn) if br == "then" else None
+                    if fg_ is not None:
+                        guard = (fg_[0], "find")
                     if br == "then" and cn.get("k") == "Bin" and cn.get("op") == "==":
                         for u, v in ((cn["lhs"], cn["rhs"]), (cn["rhs"], cn["lhs"])):
-                            pu, vv = rs.path(u), norm._strip(v)
+                            pu, vv = rs.path(u), const_copy_of(v)
                             if gate_accessor(pu, "get_ranks") is not None and vv is not None and vv.get("k") == "Ref" and vv.get("d") == rank_d:
                                 guard = (gate_accessor(pu, "get_ranks"), pu.steps[2:] if len(pu.steps) > 2 else ())
                 sub = src.steps[2:] if src is not None and len(src.steps) > 2 else ()
                 sub_ix = tuple(x[1] if x[0] == "index" else x[2] for x in sub)
-                g_ix = tuple(x[1] if x[0] == "index" else x[2] for x in guard[1]) if guard else None
-                mir.setdefault(k, []).append((c, gk, guard[0] if guard else None, sub_ix == g_ix if guard else None))
+                g_ix = tuple(x[1] if x[0] == "index" else x[2] for x in guard[1]) if guard and guard[1] != "find" else None
+                same_ = (sub_ix == g_ix) if guard and guard[1] != "find" else (None if not guard else bool(re.search(r"\bbegin\(\)|distance", " ".join(map(str, sub_ix)))) or None)
+                mir.setdefault(k, []).append((c, gk, guard[0] if guard else None, same_))
             elif "TupleVector" in (st[1][3] or ""):
                 frq.setdefault(k, []).append((c, gate_accessor(src, "get_freqs") if src is not None else None))
         for k in range(K):
